@@ -570,7 +570,7 @@ func runC06(p *core.Prog, r *core.Result) {
 					vals := core.RetVals(ret)
 					inserting := false
 					for _, mu := range updates {
-						if ex.Index < len(vals) && vals[ex.Index] == mu.Value && core.Dominates(mu, ret) {
+						if ex.Index < len(vals) && (vals[ex.Index] == mu.Value || cellValue(vals[ex.Index]) == cellValue(mu.Value)) && core.Dominates(mu, ret) {
 							inserting = true
 						}
 					}
@@ -1019,4 +1019,30 @@ func checkRegistryKeyCanonical(p *core.Prog, r *core.Result, loadModule *ssa.Fun
 		r.Check(okNorm, "R6.11", construct, p.InstrPos(ci), "an empty file name is replaced by "+def+" before the registry is consulted: the key names the file", "a label with an empty file name reaches the registry as it was written, while fetchModule reads an empty name as "+def+": load(\"//pkg\", …) and the package loader's //pkg:"+def+" are two registry keys for one file, which is executed twice (a package that declares targets then fails to load with 'duplicate target'; module-level code runs twice)")
 	}
 	r.Floor("R6.11", n, 2, "callers of (*Project).loadModule")
+}
+
+// cellValue: for a load of a local cell (a named result spilled because of a defer), the value most recently stored into
+// the cell in the same block before the load; v itself otherwise.
+func cellValue(v ssa.Value) ssa.Value {
+	ld, ok := v.(*ssa.UnOp)
+	if !ok || ld.Op != token.MUL {
+		return v
+	}
+	cell, ok := ld.X.(*ssa.Alloc)
+	if !ok {
+		return v
+	}
+	var last ssa.Value
+	for _, in := range ld.Block().Instrs {
+		if in == ssa.Instruction(ld) {
+			break
+		}
+		if st, isSt := in.(*ssa.Store); isSt && st.Addr == ssa.Value(cell) {
+			last = st.Val
+		}
+	}
+	if last != nil {
+		return last
+	}
+	return v
 }
